@@ -372,6 +372,11 @@ func runBrokerCase(c brCase) *brResult {
 	conf.Net.MaxOpenRequests = c.Max
 	conf.Net.ReadTimeout = time.Duration(c.ReadTimeoutMs) * time.Millisecond
 	conf.Net.WriteTimeout = 2 * time.Second
+	if c.ReadTimeoutMs < 1000 {
+		// words with a silence: the write timeout is far above the read timeout, so a read that is
+		// (wrongly) governed by it shows as calls that stay outstanding while nothing moves
+		conf.Net.WriteTimeout = 60 * time.Second
+	}
 	conf.Net.DialTimeout = 2 * time.Second
 	conf.Net.Proxy.Enable = true
 	conf.Net.Proxy.Dialer = srv
